@@ -74,8 +74,38 @@ class Ctx:
     def note(self, s):
         self.notes.append(s)
 
+    def import_prop(self, pid, rule="IMPORT"):
+        """run another property's premises inside this check (shared facts) and record the outcome as one obligation.
+        Open known findings of the imported property stay findings of that property; they fail the import unless they
+        are also listed for this property."""
+        import importlib
+        key = (pid,)
+        if key in getattr(self, "_imports", {}):
+            return self._imports[key]
+        if not hasattr(self, "_imports"):
+            self._imports = {}
+        mod = importlib.import_module("mb2rules.props.%s" % pid.lower())
+        child = Ctx(pid, self.tier)
+        child._facts = self._facts
+        child.cfgs = self.cfgs
+        child.known = self.known
+        child._imported = True
+        mod.run(child)
+        fails = [o for o in child.obs if o.status == "fail"]
+        open_known = self.known["open"]
+        hard = [o for o in fails if ("%s:%s:%s" % (pid, o.rule, o.key)) not in open_known]
+        ok = not hard
+        self._imports[key] = (ok, len(child.obs), hard)
+        self.check(ok, rule, pid, "all %d premise instances of %s hold on the current tree" % (len(child.obs), pid), "",
+                   how="%d premise instances re-decided in this run" % len(child.obs),
+                   why="failed premises of %s: %s" % (pid, [("%s:%s" % (o.rule, o.key))[:100] for o in hard[:6]]))
+        self.analysed["imported premises of " + pid] = len(child.obs)
+        return self._imports[key]
+
     # -- finish ----------------------------------------------------------------
     def finish(self, level, explanation, trusted_base, rule_text, design_ref=""):
+        if getattr(self, "_imported", False):
+            return 0
         prop = self.prop
         fails = [o for o in self.obs if o.status == "fail"]
         known_hits, violations = [], []
